@@ -3,6 +3,7 @@ import Zc.Proofs.Packetize
 import Zc.Proofs.Transmit
 import Zc.Proofs.RespScope
 import Zc.GenFacts.FnRegistry
+import Zc.GenFacts.FnResponderRun
 /-! # C03 — the responder answers exactly what is registered, minus what the querier knows
 
 Model: `Zc.Registry` (`_services/registry.py`, with the D3 repair), `Zc.Svc` (the record builders and memo
@@ -576,8 +577,13 @@ example :
 preserves), that the hand-written `Registry` model above computes what those bodies compute.  **What this transports**: each
 registry operation of the model is the translated body, along every sequence of calls (`C03_registry_is_source`), plus the two
 component facts restated below over the generated functions; an edit of a method body that changes what it computes breaks a named
-lemma of `FnRegistry` at stage P.  **What it does not**: the answering theorems of this file (`respond`, the host runs over `HostOp`: API calls, queries, transmissions) are about
-hand-written callers of the registry; they are not re-proved over the generated functions. -/
+lemma of `FnRegistry` at stage P.  **The responder over the translated readers** (`GenFacts/FnResponderRun.lean`): `respond` reads the registry only in
+`_get_answer_strategies` (type index, server index, services dict, list of types); `respondG` is `respond` with those four reads being the
+translated `async_get_infos_type`, `async_get_infos_server`, `async_get_info_name`, `async_get_types` on the generated object, and
+`respondG_eq` proves it computes the model's answers under `RInv`.  Hence `C03_answers_sound_source`, `C03_answers_complete_source`
+and, along every history of API calls on a fresh generated registry, `C03_history_source`.
+**What it does not**: strategy selection and `_answer_question` themselves are hand-written models around the translated readers; the
+memo warming of `respond` (its second component) and the host runs over `HostOp` (transmissions) are not restated. -/
 section Tie
 open Zc.Py Zc.GenFn.Registry Zc.GenFacts.FnRegistry
 
@@ -619,6 +625,52 @@ example :
         = some [{ exX with name := "z._a._tcp.local." }]
     ∧ (gRun id [.add exX, .add exX, .remove [exX]]).has_entries = false := by
   decide
+
+open Zc.GenFacts.FnResponderRun in
+/-- **C03_answers_sound, for the responder over the translated registry readers** -/
+theorem C03_answers_sound_source (s : ServiceRegistry) (hinv : RInv lower s) (hi : IndexInv lower (absR s)) (hm : AllFresh lower (absR s))
+    (msgs : List Msg) {d : DictRS} (h : respondG lower ettl s msgs = .ok (some d)) :
+    ∀ a ∈ keysOf d, RespSpec.soundAnswer lower ettl s.async_get_service_infos (questionsOf msgs) (knownOf msgs) a = true := by
+  rw [respondG_eq lower ettl s hinv] at h
+  cases hr : respond lower ettl (absR s) msgs with
+  | error e => rw [hr] at h; cases h
+  | ok p =>
+    rw [hr] at h
+    simp only [Except.map, Except.ok.injEq] at h
+    have hr' : respond lower ettl (absR s) msgs = .ok (some d, p.2) := by rw [hr, ← h]
+    exact C03_answers_sound lower ettl hi hm msgs hr'
+
+open Zc.GenFacts.FnResponderRun in
+/-- **C03_answers_complete, for the responder over the translated registry readers** -/
+theorem C03_answers_complete_source (s : ServiceRegistry) (hinv : RInv lower s) (hi : IndexInv lower (absR s)) (hm : AllFresh lower (absR s))
+    (msgs : List Msg) {o : Option DictRS} (h : respondG lower ettl s msgs = .ok o) :
+    RespSpec.complete lower ettl s.async_get_service_infos (questionsOf msgs) (knownOf msgs) ((o.getD []).map (·.1)) = true := by
+  rw [respondG_eq lower ettl s hinv] at h
+  cases hr : respond lower ettl (absR s) msgs with
+  | error e => rw [hr] at h; cases h
+  | ok p =>
+    rw [hr] at h
+    simp only [Except.map, Except.ok.injEq] at h
+    have hr' : respond lower ettl (absR s) msgs = .ok (o, p.2) := by rw [hr, ← h]
+    exact C03_answers_complete lower ettl hi hm msgs hr'
+
+open Zc.GenFacts.FnResponderRun in
+/-- **C03_history, for the translated code**: after any history of `async_add` / `async_remove` / `async_update` calls on a fresh
+generated registry (no pending attribute write), the responder over its translated readers computes a reply without an exception;
+every answer is exactly a record of a currently registered service that answers a question and is not known above half its TTL, every
+such record is offered, and the additionals belong to the service owning their answer -/
+theorem C03_history_source (ops : List ROp) (msgs : List Msg) (hclean : dirty lower (ops.map (toRegOp lower)) = []) :
+    ∃ o, respondG lower ettl (gRun lower ops) msgs = .ok o
+      ∧ (∀ a ∈ (o.getD []).map (·.1),
+            RespSpec.soundAnswer lower ettl (RegSpec.run lower (ops.map (toRegOp lower))) (questionsOf msgs) (knownOf msgs) a = true)
+      ∧ RespSpec.completePerService lower ettl (RegSpec.run lower (ops.map (toRegOp lower))) (questionsOf msgs) (knownOf msgs)
+          ((o.getD []).map (·.1)) = true
+      ∧ (∀ p ∈ o.getD [], RespSpec.additionalsOk lower ettl (RegSpec.run lower (ops.map (toRegOp lower))) p = true) := by
+  obtain ⟨ha, hinv⟩ := gRun_eq lower ettl ops
+  obtain ⟨o, reg', hr, h1, h2, h3⟩ := C03_history lower ettl (ops.map (toRegOp lower)) msgs hclean
+  refine ⟨o, ?_, h1, h2, h3⟩
+  rw [respondG_eq lower ettl _ hinv, ha, hr]
+  rfl
 
 end Tie
 
